@@ -467,7 +467,8 @@ def extract_type(repo, blk, meta):
     item = X.drop_cfg_features(item, log)
     item = X.drop_attrs(item, log)
     item = X.drop_vis(item, log)
-    for pat, rep, rule in meta['gsubst'] + blk.substs:
+    for pat, rep, rule in blk.substs + meta['gsubst']:
+        item = X.relex(item)
         item, cnt = X.subst_tokens(item, pat, rep, log, rule if rule != 'S' else 'R11')
         if cnt == 0 and (pat, rep, rule) in blk.substs and 'optional' not in rule:
             raise X.LostAnchor('%s::%s: substitution pattern `%s` not found' % (rel, kv['name'], pat))
